@@ -61,8 +61,13 @@ void burst_ops(World& W, int point)
       }
       continue;
     }
-    switch (c.weighted({6, 3, 2, 2, 2, 2, (is_prop("C05") || is_prop("C06")) ? 3u : 0u, is_prop("C16") ? 3u : 0u, is_prop("C05") ? 7u : 0u}))
+    switch (c.weighted({6, 3, 2, 2, 2, 2, (is_prop("C05") || is_prop("C06")) ? 3u : 0u, is_prop("C16") ? 3u : 0u, is_prop("C05") ? 7u : 0u,
+                        is_prop("C08") ? 1u : 0u}))
     {
+    case 9:
+      if (c.pick(2) == 1) op_bt_flush(W, pick_worker(W)); else { int wi = pick_worker(W); if (wi >= 0) op_bt_init(W, wi); }
+      W.lbl_bt_control = true;
+      break;
     case 8: op_pair_then_tick(W, point); break;
     case 0: op_log(W, pick_worker(W), true, point); break;
     case 1: op_tick(W); break;
@@ -442,8 +447,15 @@ void top_level_op(World& W, Choices& c)
     }
     return;
   }
-  switch (c.weighted({5, 8, 2, 2, 2, 3, 1, is_prop("C09") ? 2u : 0u, is_prop("C16") ? 3u : 0u, is_prop("C05") ? 2u : 0u, is_prop("C16") ? 2u : 0u}))
+  switch (c.weighted({5, 8, 2, 2, 2, 3, 1, is_prop("C09") ? 2u : 0u, is_prop("C16") ? 3u : 0u, is_prop("C05") ? 2u : 0u, is_prop("C16") ? 2u : 0u,
+                      is_prop("C08") ? 2u : 0u}))
   {
+  case 11:
+    // C08: backtrace control requests (init_backtrace / flush_backtrace) are re-submitted by the frontend until the queue
+    // takes them: never dropped, never counted as dropped. No backtrace statements are logged, so they produce no output.
+    if (c.pick(2) == 1) op_bt_init(W, pick_worker(W)); else op_bt_flush(W, pick_worker(W));
+    W.lbl_bt_control = true;
+    break;
   case 10: op_sink_settings(W); break;
   case 9:
     // directed: the backend is idle (every queue empty), then during ONE pass, between the reads of two queues, several
@@ -499,6 +511,7 @@ void classify(World& W, Report& r)
   }
   for (int p = 1; p <= 6; ++p) if (W.bursts_at[p]) r.label("burst_at_Y" + std::to_string(p));
   if (W.lbl_exit_with_pending) r.label("thread_exited_with_unwritten_statements");
+  if (W.lbl_bt_control) r.label("backtrace_control_requests");
   if (W.lbl_filter_added_late) r.label("sink_filter_added_after_statements");
   if (W.lbl_sink_level_changed) r.label("sink_level_filter_changed_after_statements");
   if (W.lbl_blocked) r.label("worker_blocked_at_least_once");
